@@ -269,6 +269,9 @@ def step (s : St) (op impl : String) : St × StepOut :=
                    | [] => none)
                 else if lower kv.1 == B "cookie" then (if kv.2.isEmpty then none else some (k, [join [59, 32] kv.2]))
                 else if lower kv.1 == B "trailer" then none
+                -- TE can only carry "trailers" over HTTP/3 (an accepted section never has another value)
+                else if lower kv.1 == B "te" then
+                  (let vs := kv.2.filter (· == B "trailers"); if vs.isEmpty then none else some (k, vs))
                 else if kv.2.isEmpty then none else some (k, kv.2)) ++
               (if hasUA then [] else [(B "User-Agent", [Uquic.Gen.H3Fields.defaultUserAgent])]) ++
               (if gz then [(B "Accept-Encoding", [B "gzip"])] else []) ++
@@ -393,7 +396,9 @@ def step (s : St) (op impl : String) : St × StepOut :=
           for kv in pre do
             let k := capitalise true (lower kv.1)
             let clash := ((pre ++ post).filter (fun (o : List Nat × List (List Nat)) => lower o.1 == lower kv.1)).length > 1
-            if !declared.contains k && !kv.2.isEmpty && k != B "Trailer" && k != B "Content-Length" && !clash then
+            -- connection-specific fields and TE cannot be carried over HTTP/3; a writer may only drop them
+            let notCarried := connectionSpecific.contains (lower kv.1) || lower kv.1 == B "te"
+            if !declared.contains k && !kv.2.isEmpty && k != B "Trailer" && k != B "Content-Length" && !clash && !notCarried then
               let want := hx k ++ ":" ++ ",".intercalate (kv.2.map hx)
               if !(hs.splitOn ";").contains want then
                 fails := fails ++ [("response_roundtrip", "-", s!"header {want} missing from decoded response {hs}")]
